@@ -17,13 +17,17 @@ pub struct Case {
     pub route: u8,
     /// the write targets an existing entry (index into files) instead of a fresh key
     pub own_existing: Option<u8>,
+    /// a dangling symbolic link sits among the entries (oldest, unread): it is an entry like any
+    /// other for the queue, except that it cannot be re-stamped
+    #[serde(default)]
+    pub symlink: bool,
 }
 
 pub fn gen_case() -> impl Strategy<Value = Case> {
-    (prop::collection::vec((prop_oneof![9 => 0u8..6, 1 => 6u8..9], 0u8..3), 0..13), 0u8..3, 0u8..16, 0u8..6, prop::option::weighted(0.3, 0u8..12)).prop_map(|(files, subdirs, capsel, route, own)| {
+    (prop::collection::vec((prop_oneof![9 => 0u8..6, 1 => 6u8..9], 0u8..3), 0..13), 0u8..3, 0u8..16, 0u8..6, prop::option::weighted(0.3, 0u8..12), prop::bool::weighted(0.15)).prop_map(|(files, subdirs, capsel, route, own, symlink)| {
         let n = files.len();
         let capacity = (capsel as usize * (n + 2)) >> 4; // monotone map onto 0..=n+1
-        Case { files, subdirs, capacity, route, own_existing: own.filter(|_| n > 0).map(|o| (o as usize * n / 12) as u8) }
+        Case { files, subdirs, capacity, route, own_existing: own.filter(|_| n > 0).map(|o| (o as usize * n / 12) as u8), symlink }
     })
 }
 
@@ -80,6 +84,18 @@ pub fn judge(root: &Path, c: &Case) -> Result<(bool, bool), (String, String)> {
     let eff_cap = if matches!(c.route, 3 | 5) { cap.max(1) } else { cap };
     let dir = root.join(&dir_rel);
     plant(&dir, &c.files, c.subdirs, base);
+    if c.symlink {
+        crate::shim::bypass(|| {
+            let p = dir.join("dangling");
+            let _ = std::os::unix::fs::symlink(dir.join("no-such-target"), &p);
+            // older than everything, unread (its own timestamps, not the target's)
+            let cp = std::ffi::CString::new(p.to_string_lossy().as_bytes()).unwrap();
+            let m = base - 5_000_000_000_000;
+            let ts = |ns: i128| libc::timespec { tv_sec: ns.div_euclid(1_000_000_000) as i64, tv_nsec: ns.rem_euclid(1_000_000_000) as i64 };
+            let times = [ts(m - 120_000_000_000), ts(m)];
+            unsafe { libc::utimensat(libc::AT_FDCWD, cp.as_ptr(), times.as_ptr(), libc::AT_SYMLINK_NOFOLLOW) };
+        });
+    }
     let before_snap = snapshot(&dir);
     let world = trace_world(&[root]);
     let op = Op { kind: OpKind::Set, key: key.clone(), val: Val::new(&own_name, 7, 7, 17), pop: Pop::Value, nosy: false , link_from: None};
@@ -318,6 +334,9 @@ pub fn run(ctx: &Ctx) -> Report {
             if c.subdirs > 0 {
                 rep.label("stray subdirectories present");
             }
+            if c.symlink {
+                rep.label("dangling symbolic link among the entries");
+            }
             if c.files.iter().filter(|f| f.0 >= 6).count() >= 2 {
                 rep.label("two or more files dated in the future");
             }
@@ -339,7 +358,7 @@ pub fn run(ctx: &Ctx) -> Report {
     for _ in 0..pops {
         let n = 3 + rng.below(8) as usize;
         let files: Vec<(u8, u8)> = (0..n).map(|_| (rng.below(6) as u8, if rng.chance(3, 5) { 1 + rng.below(2) as u8 } else { 0 })).collect();
-        let c = Case { files, subdirs: 0, capacity: rng.below(n as u64) as usize, route: 0, own_existing: None };
+        let c = Case { files, subdirs: 0, capacity: rng.below(n as u64) as usize, route: 0, own_existing: None, symlink: false };
         for k in 0..80u32 {
             match judge_vanish(&scratch.path, &c, k) {
                 Ok(true) => {
